@@ -114,7 +114,7 @@ package tacquito
 //@ func (a *AuthenStart) UnmarshalBinary(data []byte) (err error)
 //@   requires a != nil
 //@   modifies *a
-//@   ensures[C02,C04] err == nil ==> valid.AuthenStart(*a) && fits.AuthenStart(*a)
+//@   ensures[C02,C04,C10] err == nil ==> valid.AuthenStart(*a) && fits.AuthenStart(*a)
 //@   ensures[C04] err == nil ==> inside(a.User, data) && inside(a.Port, data) && inside(a.RemAddr, data) && inside(a.Data, data)
 //@   ensures[C04] len(data) < 8 ==> err != nil
 //@   ensures[C19] len(data) < 8 ==> typeOf(err) != *BadSecretErr
